@@ -957,7 +957,8 @@ func (w *worker) Run(ctx context.Context, req taskRunRequest, reply *taskRunRepl
 		if err != nil && err != sliceio.EOF {
 			return maybeTaskFatalErr{err}
 		}
-		return nil
+		// Fall through to commit the (empty) partitions, so that the
+		// task's output can be read (e.g., when scanning a result).
 	case task.NumPartition > 1:
 		var psize = (*defaultChunksize + 99) / 100
 		var (
